@@ -672,6 +672,11 @@ fn check18(ctx: &mut Ctx, b: &[u8]) {
     if node_from_bytes_backrefs(&mut a4, &b[..len - 1]).is_ok() {
         ctx.violation("length-probe-not-consumed-length", json!({"input": input(), "probe": len, "why": "a shorter prefix decodes"}));
     }
+    // the non-validating probe must give the same length for every input the decoders accept
+    match guarded(|| serialized_length_from_bytes_trusted(b)) {
+        Ok(Ok(t)) if t as usize == len => ctx.count("trusted_length_probe_compared"),
+        other => ctx.violation("trusted-length-probe-differs", json!({"input": input(), "validating_probe": len, "trusted_probe": format!("{other:?}")})),
+    }
     if has_ref {
         ctx.nontrivial_bytes(&[b]);
         ctx.sample(|| json!({"input": input(), "consumed": len, "pair_count": a1.pair_count()}));
